@@ -10,6 +10,7 @@ import (
 	"os"
 	"os/exec"
 	"path/filepath"
+	"runtime"
 	"runtime/debug"
 	"sort"
 	"strconv"
@@ -164,6 +165,15 @@ func runParent(verif, repo string, ids []string, tier string, writeEv bool) int 
 			var so, se bytes.Buffer
 			cmd.Stdout = &so
 			cmd.Stderr = &se
+			if os.Getenv("GOMAXPROCS") == "" {
+				// the workers run side by side: split the cores between them (16 spinning Ps per
+				// worker on a busy host cost more in scheduler time than they gain)
+				n := runtime.NumCPU() / len(cfgs)
+				if n < 2 {
+					n = 2
+				}
+				cmd.Env = append(os.Environ(), fmt.Sprintf("GOMAXPROCS=%d", n))
+			}
 			err := cmd.Run()
 			var wo workerOut
 			if jerr := json.Unmarshal(bytes.TrimSpace(so.Bytes()), &wo); jerr != nil {
